@@ -364,6 +364,41 @@ impl Table {
     }
 }
 
+#[cfg(raindb_verif)]
+impl Table {
+    /// Consult the filter block directly (verification accessor).
+    pub(crate) fn verif_filter_may_match(&self, block_offset: u64, user_key: &[u8]) -> Option<bool> {
+        self.maybe_filter_block
+            .as_ref()
+            .map(|filter| filter.key_may_match(block_offset, user_key))
+    }
+
+    /// Every data block as `(offset, size, entries)` (verification accessor).
+    pub(crate) fn verif_blocks(
+        &self,
+    ) -> Result<Vec<(u64, u64, Vec<crate::verif::VerifEntry>)>, String> {
+        let mut out = vec![];
+        let mut index_iter = self.index_block.iter();
+        index_iter.seek_to_first().map_err(|e| e.to_string())?;
+        while let Some((_key, raw_handle)) = index_iter.current() {
+            let handle = BlockHandle::try_from(raw_handle).map_err(|e| e.to_string())?;
+            let reader: DataBlockReader =
+                Table::get_data_block_reader_from_disk(&*self.file, &handle)
+                    .map_err(|e| e.to_string())?;
+            let mut entries = vec![];
+            let mut block_iter = reader.iter();
+            block_iter.seek_to_first().map_err(|e| e.to_string())?;
+            while let Some((k, v)) = block_iter.current() {
+                entries.push(crate::verif::entry_of(k, v));
+                block_iter.next();
+            }
+            out.push((handle.get_offset(), handle.get_size(), entries));
+            index_iter.next();
+        }
+        Ok(out)
+    }
+}
+
 impl fmt::Debug for Table {
     fn fmt(&self, f: &mut fmt::Formatter<'_>) -> fmt::Result {
         f.debug_struct("Table")
